@@ -42,6 +42,19 @@ class PythonConstructRenderer:
         s2 = re.sub("([a-z0-9])([A-Z])", r"\1_\2", s1)
         return s2.lower()
 
+    @classmethod
+    def _resolve_mapped_model(cls, schema_name: str, context: RenderContext) -> Tuple[str, str]:
+        """Return (module stem, class name) of the model generated for a discriminator mapping target."""
+        from pyopenapi_gen.core.utils import NameSanitizer
+
+        schemas = context.parsed_schemas or {}
+        schema = schemas.get(schema_name) or schemas.get(NameSanitizer.sanitize_class_name(schema_name))
+        if schema is not None and schema.generation_name and schema.final_module_stem:
+            return schema.final_module_stem, schema.generation_name
+        if schema is not None:
+            return NameSanitizer.sanitize_module_name(schema_name), NameSanitizer.sanitize_class_name(schema_name)
+        return cls._to_module_name(schema_name), schema_name
+
     def render_alias(
         self,
         alias_name: str,
@@ -112,15 +125,14 @@ class PythonConstructRenderer:
                 writer.write_line("")
                 writer.write_line("    def get_mapping(self) -> dict[str, type]:")
                 writer.write_line('        """Get discriminator mapping with actual type references."""')
-                # Import types locally
+                # Import types locally, from the module each model was actually written to
                 for disc_value, schema_ref in discriminator.mapping.items():
-                    schema_name = schema_ref.split("/")[-1]
-                    module_name = self._to_module_name(schema_name)
-                    writer.write_line(f"        from .{module_name} import {schema_name}")
+                    module_name, class_name = self._resolve_mapped_model(schema_ref.split("/")[-1], context)
+                    writer.write_line(f"        from .{module_name} import {class_name}")
                 writer.write_line("        return {")
                 for disc_value, schema_ref in discriminator.mapping.items():
-                    schema_name = schema_ref.split("/")[-1]
-                    writer.write_line(f'            "{disc_value}": {schema_name},')
+                    _, class_name = self._resolve_mapped_model(schema_ref.split("/")[-1], context)
+                    writer.write_line(f'            "{disc_value}": {class_name},')
                 writer.write_line("        }")
             else:
                 writer.write_line("    _mapping_data: tuple[tuple[str, str], ...] | None = None")
